@@ -125,7 +125,7 @@ def run(ck: Check) -> int:
         # became set.isdisjoint, which iterates a bytes drive as ints and never finds the bytes member b'\\' of the drive set)
         wpats = ['c:\\\\file', 'c:/file', '\\\\\\\\server\\\\share\\\\x', '//server/share/x', '\\\\\\\\?\\\\c:\\\\x', '//?/c:/x', 'c:\\\\*', 'c:/[a]',
                  'a\\\\b', 'a/b', 'plain', 'a*', '~x', '{a,b}', 'a|b', '!a', '-a', '@(a)', '//?/UNC/h/s/x', '\\\\\\\\?\\\\UNC\\\\h\\\\s', 'c:', 'c:x', '\\\\', '/',
-                 # KF-D38: `\\N{…}` is one token of the str normaliser even without RAWCHARS, so a `\\/` inside it is not rewritten (bytes: it is)
+                 # D38 (repaired): `\\N{…}` was one token of the str normaliser even without RAWCHARS, so a `\\/` inside it was not rewritten (bytes: it was)
                  '\\N{\\/}', 'x\\N{a\\/b}y', '\\N{a}', '\\N{']
         wnames = ['c:\\file', 'c:/file', 'C:/FILE', '//server/share/x', '\\\\server\\share\\x', 'a\\b', 'a/b', 'plain', 'ab', 'a']
         for wp in wpats:
@@ -151,7 +151,7 @@ def run(ck: Check) -> int:
                                 except Exception as ex:  # noqa: BLE001
                                     rb = type(ex).__name__
                                 if rs != rb:
-                                    kid = 'KF-D38' if ('\\N{' in wp and '\\/' in wp and what in ('translate', 'match')) else None
+                                    kid = None          # (KF-D38 — `\\N{\\/}` under Windows rules — is repaired: never attributed)
                                     ck.report(Failing(f'{what}(bytes) differs from {what}(str) under Windows rules', {'api': f'{mod.__name__}.{what}', 'pattern': wp, 'flags': fl},
                                                       repr(rs)[:200], repr(rb)[:200]), kid)
                     except common.CallTimeout:
